@@ -329,9 +329,8 @@ theorem okWF_create (fuel : Nat) (e : EntId) (pk : Option Nat) (vals : List (Att
           have hfreeC : ∀ k x, k ∈ sch.ckeysOf e → tuple ((sch.keyAttrs k).map v) = some x → st.store.cidx k x = none := by
             intro k x hk' hx
             have := List.any_eq_false.mp (by simpa using hfC) k hk'
-            have this' : ¬ ((match tuple ((sch.keyAttrs k).map v) with | some vs => (st.store.cidx k vs).isSome | none => false) = true) := by rw [← hv]; exact this
-            rw [hx] at this'
-            simpa using this'
+            rw [hx] at this
+            simpa using this
           obtain ⟨r1, r2, r3, r4, r5⟩ := registerKeys_spec sch st.store.n v simple (sch.ckeysOf e) st3.store
           generalize registerKeys sch st.store.n v simple (sch.ckeysOf e) st3.store = R at htail r1 r2 r3 r4 r5
           have hst' : st' = st3.setStore ({ (R.upd st.store.n fun r => { r with savePos := some R.toSave.length }) with toSave := R.toSave ++ [some st.store.n], modified := true } : Store) := (Res.ok.inj htail).symm
@@ -474,6 +473,80 @@ theorem okWF_create (fuel : Nat) (e : EntId) (pk : Option Nat) (vals : List (Att
               split at ex'
               · rename_i hc; cases ex'; exact ⟨ckeysOf_lt sch e k hc.1, by rw [hci.n]; exact Nat.lt_succ_self _⟩
               · exact hci.dom.cidx k x q ex'
+
+/-- schemas of the kind Pony accepts under this model's conventions: the attributes of a composite key belong to the key's entity,
+    `unique=True` is given to int attributes, a collection is not part of a key -/
+structure SchemaWf (sch : Schema) : Prop where
+  keys : KeysWf sch
+  uniq : UniqScalar sch
+  nocoll : ∀ a, sch.isKeyPart a = true → ∀ d, sch.decl a = some d → (d.kind != .coll) = true
+
+/-- the object made by a successful constructor call has status `created` (immediate in Pony; in the model it would take a cascade
+    that deletes the object under construction) -/
+def createdOk (sch : Schema) (s : Store) : Op → Bool
+  | .create e pk vals => match (stepO sch s (.create e pk vals)).err with
+    | some _ => true
+    | none => decide (((stepO sch s (.create e pk vals)).store.row s.n).status = .created)
+  | _ => true
+
+/-- every successful user call keeps the well-formedness facts -/
+theorem call_keeps (hsw : SchemaWf sch) (op : Op) (s : Store) (st' : St) (hs : SaveOk s) (hk : IdxOk sch s) (hd : IdxDom sch s)
+    (h : run1 sch op { store := s } = .ok st') (hc : createdOk sch s op = true) :
+    SaveOk st'.store ∧ IdxOk sch st'.store ∧ IdxDom sch st'.store := by
+  have g0 : Good s ({ store := s } : St) := ⟨hs, Nat.le_refl _, fun t ht => ht.symm⟩
+  cases op with
+  | create e pk vals =>
+    unfold run1 at h
+    simp only at h
+    split at h
+    · rename_i hv
+      refine okWF_create _ e pk vals _ rfl hsw.keys hsw.uniq hsw.nocoll ?_ st' h g0 hk hd ?_
+      · intro p hp
+        have := List.all_eq_true.mp hv p hp
+        cases hd' : sch.decl p.1 with
+        | none => rw [hd'] at this; cases this
+        | some d => rw [hd'] at this; exact ⟨d, rfl, by simpa using this⟩
+      · unfold createdOk stepO at hc
+        simp only at hc
+        have hrun : run1 sch (.create e pk vals) { store := s } = .ok st' := by
+          unfold run1; simp only [hv, if_true]; exact h
+        rw [hrun] at hc
+        simpa using hc
+    · cases h
+  | setMany o kw =>
+    unfold run1 at h
+    simp only at h
+    split at h
+    · rename_i hlt
+      split at h
+      · cases h
+      · rename_i hnd
+        split at h
+        · cases h
+        · rename_i hval
+          refine okWF_setMany _ o kw _ hlt (by simpa using hnd) hsw.keys ?_ st' h g0 hk hd
+          intro p hp
+          have := List.findSome?_eq_none_iff.mp hval p hp
+          cases hok : attrOk sch s o p.1 with
+          | some e => rw [hok] at this; cases this
+          | none =>
+            unfold attrOk at hok
+            rw [if_pos hlt] at hok
+            cases hd' : sch.decl p.1 with
+            | none => rw [hd'] at hok; cases hok
+            | some d =>
+              rw [hd'] at hok
+              simp only at hok
+              split at hok
+              · rename_i he; exact ⟨d, rfl, he⟩
+              · cases hok
+    · cases h
+  | flush ids => exact covered_call_keeps _ s st' rfl hs hk hd h
+  | set o a v => exact covered_call_keeps _ s st' rfl hs hk hd h
+  | add o c items => exact covered_call_keeps _ s st' rfl hs hk hd h
+  | remove o c items => exact covered_call_keeps _ s st' rfl hs hk hd h
+  | clear o c => exact covered_call_keeps _ s st' rfl hs hk hd h
+  | delete o => exact covered_call_keeps _ s st' rfl hs hk hd h
 
 end top
 end PonyVerif.Model.Undo
